@@ -392,6 +392,7 @@ pub fn run(ctx: &Ctx, replay: Option<&str>) -> i32 {
          failing steps; distinct by text.",
     );
     ctx.assume("a batch killed by the address-space limit after a huge allocation request, or by the watchdog, is inconclusive (resource class), not a crash");
+    c06::set_avoid(ctx);
     if let Some(path) = replay {
         let Some(rf) = load_replay::<Case07>(std::path::Path::new(path)) else {
             eprintln!("cannot read replay file {}", path);
@@ -467,7 +468,7 @@ pub fn run(ctx: &Ctx, replay: Option<&str>) -> i32 {
     let fails = run_prop(
         ctx,
         "hist",
-        || prop::collection::vec(any::<u16>(), 0..800).prop_map(|d| Case07::Hist(c06::case_from_choices(&d, &HistOpts { max_ops: 30, fail_weight: 12, bulk: false }))),
+        || prop::collection::vec(any::<u16>(), 0..800).prop_map(|d| Case07::Hist(c06::case_from_choices(&d, &HistOpts { avoid: c06::avoid(), max_ops: 30, fail_weight: 12, bulk: false }))),
         ctx.n(300, 10_000),
         |ws, c, counting| {
             let r = check(ctx, ws, c, counting);
